@@ -16,6 +16,19 @@ def quiet():
     console.reinit(verbosity=0)
 
 
+def ref_actor_parts(name):
+    """the DOCUMENTED rule of aiding.nameToPath (every upper case letter opens a new node), written
+    independently of the implementation; tied to the Coq translation of the source by check.py"""
+    out = []
+    for c in name:
+        if c.isupper():
+            out.append(".")
+            out.append(c.lower())
+        else:
+            out.append(c)
+    return "".join(out).strip(".").split(".")
+
+
 def parts_of(inode):
     """exactly  inode.rstrip('.').split('.') if inode else []"""
     return inode.rstrip(".").split(".") if inode else []
@@ -49,6 +62,16 @@ def gen_program(rng, names=None):
     def via():
         v = rng.choice(INODES)
         return v
+
+    actors = []
+
+    def actor():
+        """entity of a named actor (`as <words>`) or None for the registry name"""
+        if rng.random() < 0.3:
+            return None
+        k = "K%d" % len(actors)
+        actors.append(k)
+        return k
 
     def refs(aux, frames_here, framers):
         """each reference: ("put", written path, relation) with relation one of
@@ -111,8 +134,9 @@ def gen_program(rng, names=None):
                 out.append(("put", T[st][0], T[st][1]))
         # `do` ioinit references: always one without and one with a do-level via (the default actor
         # inode applies only when neither act, over frames nor framers contribute an inode)
-        out.append(("do", "", marker()))
-        out.append(("do", via(), rng.choice(["", "me."]) + marker()))
+        out.append(("do", "", marker(), actor()))
+        out.append(("do", rng.choice([via(), via(), "zz of actor", "yy.ww of actor me", ".place of actor me"]),
+                    rng.choice(["", "me."]) + marker(), actor()))
         # implicit framer-state needs: go <frame> if elapsed/recurred <cmp> value | goal [+- tol]
         for _ in range(rng.randint(1, 3)):
             out.append(("need", rng.choice(["elapsed", "recurred"]), rng.choice(["value", "goal", "goaltol"]),
@@ -145,6 +169,11 @@ def gen_program(rng, names=None):
         rng.shuffle(pool)
         ents = ["F0", "M0", "M1", "a0", "a1", "a2", "b0", "b1", "d0", "d1", "c0", "c1"]
         names = dict(zip(ents, pool))
+        # actor names: runs of capitals (one letter words), digits, mixed case, underscores
+        words = ["a bc", "p i d", "my doer", "abc", "x9 y", "ab c d", "q", "i o", "a b_c", "go2 it", "t v x", "lo"]
+        rng.shuffle(words)
+        for i, k in enumerate(actors):
+            names[k] = words[i % len(words)] + ("" if i < len(words) else " n%d" % i)
     return spec, names
 
 
@@ -195,7 +224,9 @@ def render(spec, names):
                     L.append("      go %s if %s %s" % (nm(r[3][1]), r[1], {"value": ">= 0.5", "goal": ">= goal",
                                                                             "goaltol": "== goal +- 0.1"}[r[2]]))
                 else:
-                    L.append("      do doer param at enter%s per color %s" % ((" via " + r[1]) if r[1] else "", r[2]))
+                    asn = (" as " + names[r[3]]) if len(r) > 3 and r[3] else ""
+                    v = r[1] if r[1].startswith("of ") else r[1]
+                    L.append("      do doer param%s at enter%s per color %s" % (asn, (" via " + v) if v else "", r[2]))
             if f["aux"]:
                 a = f["aux"]
                 L.append("      aux %s as %s%s" % (nm(a[0]), nm(a[1]), (" via " + a[2]) if a[2] else ""))
@@ -253,7 +284,6 @@ def all_acts(builder):
 def extract_ctx(act):
     """the model's context (strings) from a live Act"""
     from ioflo.base import acting, framing
-    from ioflo.aid.aiding import nameToPath
     frame = act.frame
     if not isinstance(frame, framing.Frame) or not isinstance(frame.framer, framing.Framer):
         return None
@@ -286,7 +316,7 @@ def extract_ctx(act):
         "mainframer": framer.main.framer.name if framer.main else "nomainframer",
         "frame": frame.name,
         "mainframe": framer.main.name if framer.main else "nomainframe",
-        "actor": nameToPath(act.actor.name).lstrip(".").rstrip(".").split(".") if actor_ok else ["noactor"],
+        "actor": ref_actor_parts(act.actor.name) if actor_ok else ["noactor"],
     }
     return {"has_main": bool(framer.main), "actor_ok": actor_ok,
             "act_inode": None if act.inode is None else parts_of(act.inode),
